@@ -915,7 +915,7 @@ func c13RunExpiryHistory(run *vk.Run, hidx int, r *rand.Rand, st *c13eStats) {
 		detail := func() map[string]any {
 			return map[string]any{"history": hidx, "key": k, "fillers": nfill, "writers": nw, "cleaners": ncl,
 				"precondition": "key and fillers written with ttl 5 ms, phase started certainly after their expiry; no client deletes; all writes use ttl 0",
-				"cleanups": spans, "history_by_call_time": c13cDump(kr, 200)}
+				"cleanups":     spans, "history_by_call_time": c13cDump(kr, 200)}
 		}
 		if acked && final[k].out.Err == "notfound" {
 			run.Violation("C13:conc-expiry|acked-ttl0-write-lost|concurrent=CleanupExpired", detail())
